@@ -54,6 +54,9 @@ def _add_invariant_code(
 
 def sort_molecule_by_attribute(m: nx.Graph, attribute: str) -> nx.Graph:
     """Sort atoms by attribute."""
+    if m.number_of_nodes() == 0:
+        return m.copy()
+
     attr_with_labels = [
         (attribute_sequence(m, atom, attribute), atom) for atom in m
     ]  # [(A, 0), (C, 1), (B, 2)]
